@@ -154,8 +154,6 @@ def gen_cases(tier, seed, shapes=None, per_shape=None):
         for term in terms:
             for (nt, cs) in [(4, ("C", 1)), (3, ("C", 2)), (0, ("C", 0))]:
                 k += 1
-                if tier == "quick" and src != "vec" and k % 3:
-                    continue
                 n = 120 if (eager and nt == 4) else 24
                 for design in (designs if src == "vec" else [designs[k % 3]]):
                     cases.append(corner_case(r, cid, src, ch, term, nt, cs, n, design))
